@@ -68,7 +68,7 @@ def closed_form(A, B, E=None, M=None, **kw):
 
 
 def gradient(cx, n=2, ncols=1, method="custom_exactsolve", opkind="dense", withE=False, withM=False, complex_=False,
-             second=False, bck_method=None, batchB=(), concreteM=False, concreteA=False, frozen=()):
+             second=False, bck_method=None, batchB=(), concreteM=False, concreteA=False, frozen=(), history=None):
     if concreteA:
         # A fixed at one (non-symmetric, non-singular) point; it still is an autograd leaf
         av = torch.tensor([[1.5, -0.5, 0.25], [0.75, 2.0, -1.0], [0.5, 0.25, 1.25]], dtype=torch.float64)[:n, :n]
@@ -125,6 +125,20 @@ def gradient(cx, n=2, ncols=1, method="custom_exactsolve", opkind="dense", withE
         G = cx.sym("g", tuple(X.shape), complex_=complex_)
     loss = (G.conj() * X).sum().real if complex_ else (G * X).sum()
     lossr = (G.conj() * Xr).sum().real if complex_ else (G * Xr).sum()
+    if history in ("plain_first", "resolve"):
+        # history of backward passes on the same operator object: a plain (non-recording) pass first - through this result,
+        # or through an earlier solve with the same operator - must not change what the recording pass returns afterwards
+        if history == "resolve":
+            B0 = B.detach() * 0.5 + 1.0
+            X0 = solve(A, B0, E, Mop, **kw)
+            l0 = (X0 * X0.conj()).real.sum()
+        else:
+            l0 = loss
+        g0 = grads(l0, leaves, create_graph=False)
+        if history == "plain_first":
+            g2p = grads(lossr, leaves, create_graph=False)
+            for i, (x, y) in enumerate(zip(g0, g2p)):
+                cx.claim_eq("plain pass: d/d(leaf %d)" % i, x, y)
     g1 = grads(loss, leaves, create_graph=second)
     g2 = grads(lossr, leaves, create_graph=second)
     names = (["a%d" % i for i in range(len(mats))] if "a" not in frozen else []) + (["b"] if "b" not in frozen else []) + \
@@ -220,6 +234,15 @@ def configs(tier):
     add("grad/custom_exactsolve/mvonly/A/n2c1/2nd", gradient, n=2, ncols=1, method="custom_exactsolve", opkind="mvonly", second=True)
     add("grad/custom_exactsolve/nonlinear/A/n2c1/2nd", gradient, n=2, ncols=1, method="custom_exactsolve", opkind="nonlinear",
         second=True)
+    # histories: a plain backward pass (same result / earlier solve with the same operator object) before the recording one
+    add("grad/custom_exactsolve/dense/A/n2c1/2nd/plain_first", gradient, n=2, ncols=1, method="custom_exactsolve", opkind="dense",
+        second=True, history="plain_first")
+    add("grad/closed_form/mvonly/A/n2c1/2nd/plain_first", gradient, n=2, ncols=1, method="closed_form", opkind="mvonly",
+        second=True, history="plain_first")
+    add("grad/custom_exactsolve/dense/AE/n2c1/2nd/resolve", gradient, n=2, ncols=1, method="custom_exactsolve", opkind="dense",
+        withE=True, second=True, history="resolve")
+    add("grad/custom_exactsolve/matmul/A/n2c1/2nd/resolve", gradient, n=2, ncols=1, method="custom_exactsolve", opkind="matmul",
+        second=True, history="resolve")
     for opkind in ("mvonly", "mvrmv", "mvmm", "all", "herm", "herm_mv", "add", "sub", "mul", "matmul", "adjoint", "add_dense"):
         add("grad/custom_exactsolve/%s/AE/n2c1" % opkind, gradient, n=2, ncols=1, method="custom_exactsolve", opkind=opkind,
             withE=True)
